@@ -507,6 +507,9 @@ package wasp
 //@   ensures [C11] #decodes == old(#decodes) + 1 && #processCalls <= old(#processCalls) + 1
 // C13: a DISCONNECT packet (Process answers ErrSessionDisconnected) marks the session as cleanly ended, so that no will is sent
 //@   ensures [C13] #processCalls == old(#processCalls) + 1 && #lastProcessErr == ErrSessionDisconnected ==> session.Disconnected && !ok
+// C12: the session goes on only after a packet that was processed without error: the PINGREQ of a displaced session (Process
+// answers ErrSessionDisconnected) ends it, as does every other error
+//@   ensures [C12] ok ==> #processCalls == old(#processCalls) + 1 && #lastProcessErr == nil
 
 // the per-connection loop: every processed packet re-arms the keep-alive deadline; when the loop ends the session is torn down
 //@ loop (*connectionWorker).serve#1
